@@ -526,3 +526,18 @@ def chebyshev_bases(d, alpha, with_computational_basis=False):
     if with_computational_basis:
         out.append(np.eye(d, dtype=np.complex128))
     return out
+
+
+def element_probing_eq9_bases(dim):
+    """the four orthonormal bases of Baldwin-Deutsch-Kalev (PRA 93, 052105) eq. (9), even dim >= 4; rows are basis vectors:
+    B1 = {(|2j> +- |2j+1>)/sqrt2}, B2 = {(|2j+1> +- |2j+2 mod d>)/sqrt2}, B3, B4 = the same with +-i on the second ket."""
+    s = 1 / math.sqrt(2)
+    out = []
+    for shift, ph in ((0, 1), (1, 1), (0, 1j), (1, 1j)):
+        B = np.zeros((dim, dim), dtype=np.complex128)
+        for j in range(dim // 2):
+            p, q = (2 * j + shift) % dim, (2 * j + shift + 1) % dim
+            B[2 * j, p], B[2 * j, q] = s, s * ph
+            B[2 * j + 1, p], B[2 * j + 1, q] = s, -s * ph
+        out.append(B)
+    return out
